@@ -108,6 +108,12 @@ def shape_corpus():
     a(mk("la_bytes_kw", [rx(rb"if(?-u:\b)"), rx(rb"[\x80-\xff]")], utf8=False))
     # late-accept states that still have edges / self loops / an EOI edge (the match is revealed by a byte
     # that also continues another pattern)
+    # definitions in which no pattern can ever match (an assertion that cannot hold follows consumed text):
+    # every byte of every input is a one-byte error
+    a(mk("dead_loop", [rx("a*b^")]))
+    a(mk("dead_two", [rx("a*b^"), rx("[b-d]+$x")]))
+    a(mk("dead_bytes", [rx(rb"(?-u)[a-z]*\x80^")], utf8=False))
+    a(mk("dead_utf8", [rx("é*€^")]))
     a(mk("late_loop", [rx(r"[a-z]+(?-u:\B)"), rx("[0-9]")]))
     a(mk("late_loop_bytes", [rx(rb"(?-u)[a-z]+\B"), rx(rb"[0-9]+")], utf8=False))
     a(mk("late_loop_edges", [rx(r"[a-z]+(?-u:\B)"), rx("[a-z]+[0-9]"), rx("[a-z]+:[a-z]")]))
